@@ -100,6 +100,22 @@ CHECKS = {
     technique="runtime monitor: differential round-trip oracle through serde_json with the serde feature compiled in (separate harness crate), mirror equality",
     text="The harness builds ipp with the serde feature (which the repository's suite never compiles), serialises each generated message (payload attached) to JSON, deserialises it and compares header, groups, names and values with the mirror of what was serialised; the payload must read as empty afterwards. IppAttributes alone and every IppValue alone go through the same round trip. All 22 kinds, raw-octet values, nested collections (up to the carrier's nesting limit) and boundary lengths are covered by the shapes prefix and seeded random messages.",
     note="JSON (serde_json) as the carrier; messages nested deeper than 20 collection levels are skipped because serde_json refuses deeper documents."),
+
+ "C11": dict(
+    level="exploration", design="2/C11",
+    technique="runtime monitoring against a live scripted loopback HTTP peer: offline checker over the joined client-call log and peer event log (exactly-once, content equality, error outcomes); fault injection at every cut offset; TSan/ASan layers in thorough",
+    text="Both clients talk to a raw std::net HTTP/1.1 peer that records every connection, request (line, headers, decoded body) and response. Random exchanges cover payloads from 0 B to MiBs from fragmented / interrupted / not-ready sources, custom headers, Basic credentials, ipp:// and http:// targets with path and query, and responses under content-length, chunked and close-delimited framing with write fragmentation; every 4xx/5xx status (quick: 20, thorough: all 200) carrying a valid IPP body, a connection cut at every offset inside the response's header+attributes under each framing, and a stalled server with request_timeout must give Err; 16 concurrent senders x 20 sends through one client are matched to their own responses by unique request-id and marker. The checker demands exactly one POST per send with the exact target, Host, Content-Type, headers and credentials and a body that decodes (reference decoder) to exactly the request and payload, and response equality including trailing data.",
+    note="Quick runs the plain-HTTP feature build (no TLS set-up cost per send); thorough repeats the workload on the native-tls and rustls builds. Timeouts judged on outcome only."),
+ "C12": dict(
+    level="exploration", design="2/C12",
+    technique="runtime monitoring of a complete configuration matrix against a loopback rustls peer with freshly generated CAs; oracle on send() outcome and on decrypted bytes seen by the peer application (exhaustive: true)",
+    text="The finite matrix {blocking, async} x {native-tls, rustls} x ignore flag {unset, false, true} x extra root {none, correct PEM, correct DER, unrelated} x server certificate {valid, wrong host, expired, self-signed, unknown CA} = 240 cells is executed completely on every run (two harness builds, one per TLS backend, since the backends cannot be compiled together). A cell must accept exactly when the caller opted out or supplied the correct root for a valid leaf; in every rejected cell the peer application must not have received a single decrypted byte. Thorough repeats the matrix against TLS 1.2-only and 1.3-only peers.",
+    note="Certificates are generated with the openssl CLI at check time; trust decisions are those of the OpenSSL / rustls versions in this image."),
+ "C18": dict(
+    level="exploration", design="2/C18",
+    technique="runtime monitoring of the real ipputil binary (built from /repo/util) as a child process against the scripted loopback peer: offline checker over the peer event log and the exit status",
+    text="ipputil print is run with generated command lines (file or stdin documents of 0 B to MiBs of arbitrary bytes, optional job and user names, options over every textual class incl. i32 boundaries, values containing '=' and empty values, -n on/off, extra headers, http and ipp targets) against scripted printers (state, reasons, IPP status of each reply, HTTP errors). The checker derives the expected exchange sequence, compares the submitted document byte-for-byte, the typing of every option with a reference text classifier, the name attributes, the extra headers and the exit status.",
+    note="Exit status after a not-ready refusal is recorded, not judged. 60 runs quick, 2000 thorough."),
 }
 
 REASON_TODO = "check not built yet in this revision of /verif (planned; see DESIGN.md section 2)"
